@@ -16,7 +16,7 @@ def wl_inputs(v):
     return None   # lists are not scalars in the model: go straight to the bounded search
 
 
-MONITORS = {"write_continue": ("m_write_continue", wc_inputs), "write_lines": ("m_write_lines", wl_inputs)}
+MONITORS = {"write_continue": ("m_write_continue", wc_inputs), "write_lines": ("m_write_lines_e2e", wl_inputs)}
 
 
 def run(ctx):
@@ -37,7 +37,7 @@ def run(ctx):
         "outside the property's domain, stated as the unit's raises clause",
     ]
     if ctx.tier == "thorough":
-        for mon in ("m_write_continue", "m_write_lines"):
+        for mon in ("m_write_continue", "m_write_lines", "m_write_lines_e2e"):
             r = ctx.monitor(mon, "search", 200000, ctx.seed)
             ctx.bounded.append({"monitor": mon, "kind": "bounded run-time contract on the real function (CPython cross-check)",
                                 "inputs_tried": r["tried"], "distinct": r.get("distinct"), "violation": r["violation"],
